@@ -545,6 +545,7 @@ func runC07(cfg Config) {
 	}
 	runPoolTraces(cfg, rep, []string{"VerifyIndex", "ChopFile", "Copy", "ChunkStream", "PlanValidate"}, cfg.N(450, 11000), 7)
 	c07CLI(cfg, rep, rng, monitor)
+	cmdflowCLI(cfg, rep, rng, "C07")
 	rep.Write(cfg.Out)
 }
 
@@ -868,6 +869,7 @@ func runC06(cfg Config) {
 	c06RealBackends(cfg, rep, rng, monitor)
 	runRemoteStoresWrite(cfg, rep, rng)
 	c06CLI(cfg, rep, rng, monitor)
+	cmdflowCLI(cfg, rep, rng, "C06")
 	rep.Write(cfg.Out)
 }
 
